@@ -123,6 +123,16 @@ def make_value(eng, path, name, kind, tag, fi=None):
         return new_group_shaped(eng, path, name, tag.split(":")[1])
     if kind in ("optname", "name") and tag == "str":
         return SStr([Atom(z3.String(f"{name}"), "name", {"key": name})])
+    if tag.startswith("classobj"):
+        # an arbitrary instance of the class layer: inferred type Class (or Token after the one-character collapse),
+        # any negation flag, any verbose text
+        tname = tag.split(":")[1] if ":" in tag else "Class"
+        base = eng.index.modules["pregex.core.classes"].classes["__Class"]
+        obj = new_pregex(eng, path, name, tname, cls=base)
+        path.fields(obj)["_Class__is_negated"] = z3.Bool(f"neg_{name}_{obj.oid}")
+        path.fields(obj)["_Class__verbose"] = SStr([Atom(z3.String(f"verbose_{name}_{obj.oid}"), "opq", {"key": f"verbose_{name}"})])
+        path.fields(obj)["_ghost_classarg"] = SStr([Atom(z3.String(f"classarg_{name}_{obj.oid}"), "opq", {"key": f"classarg_{name}"})])
+        return obj
     if tag in TYPE_NAMES:
         return new_pregex(eng, path, name, tag)
     if tag.endswith("+compiled"):
@@ -603,6 +613,62 @@ def sb_NEGATED(eng, path, p):
     return path.getf(p, "_Class__is_negated")
 
 
+def sb_VERBOSE(eng, path, p):
+    return path.getf(p, "_Class__verbose")
+
+
+def sb_ISCLS(eng, path, x):
+    """x is an instance of the class layer (__Class)"""
+    base = eng.index.modules["pregex.core.classes"].classes["__Class"]
+    return isinstance(x, Obj) and x.kind == "pregex" and hasattr(x.cls, "is_subclass_of") and x.cls.is_subclass_of(base)
+
+
+def sb_GHOSTOP(eng, path, p):
+    """ghost: (name of the core operation, left operand, right operand) that produced this class"""
+    return path.getf(p, "_ghost_op")
+
+
+def ret_class_op(eng, path, env, fi, contract):
+    """__or / __sub (assumed): an arbitrary class with the negation flag of the operands; the operation and its operands, in
+    order, are remembered (ghost)"""
+    base = eng.index.modules["pregex.core.classes"].classes["__Class"]
+    obj = new_pregex(eng, path, contract["op"], "Class", cls=base)
+    f = path.fields(obj)
+    f["_Pregex__type"] = Unknown("inferred type of a class result")      # Class, or Token after the one-character collapse
+    f["_Class__is_negated"] = path.getf(env["pre1"], "_Class__is_negated")
+    f["_Class__verbose"] = SStr([Atom(z3.String(f"verbose_{contract['op']}_{obj.oid}"), "opq", {"key": f"verbose{obj.oid}"})])
+    f["_ghost_op"] = (contract["op"], env["pre1"], env["pre2"])
+    f["_ghost_classarg"] = SStr([Atom(z3.String(f"classarg_{contract['op']}_{obj.oid}"), "opq", {"key": f"classarg{obj.oid}"})])
+    return obj
+
+
+def ret_class_wrapped(eng, path, env, fi, contract):
+    """__or__ / __sub__ / ... used as callees: an arbitrary instance of the class layer carrying the receiver's negation flag
+    (their proved post-condition); __invert__: the opposite flag"""
+    base = eng.index.modules["pregex.core.classes"].classes["__Class"]
+    obj = new_pregex(eng, path, fi.qualname.split(".")[-1].strip("_"), "Class", cls=base)
+    f = path.fields(obj)
+    f["_Pregex__type"] = Unknown("inferred type of a class result")
+    neg = path.getf(env["self"], "_Class__is_negated")
+    f["_Class__is_negated"] = eng.not_(neg) if contract.get("flips") else neg
+    f["_Class__verbose"] = SStr([Atom(z3.String(f"verbose_res_{obj.oid}"), "opq", {"key": f"verbose{obj.oid}"})])
+    f["_ghost_classarg"] = SStr([Atom(z3.String(f"classarg_res_{obj.oid}"), "opq", {"key": f"classarg{obj.oid}"})])
+    return obj
+
+
+def ret_class_ctor(eng, path, env, fi, contract):
+    """a proved class constructor used as a callee: the instance is a class with the bracket text / flag its contract states"""
+    from .vc import eval_spec
+    me = env["self"]
+    src = new_pregex(eng, path, "cls", "Class")
+    path.fields(me).update(path.fields(src))
+    path.fields(me)["_Pregex__type"] = Unknown("inferred type of a class")
+    path.fields(me)["_Class__is_negated"] = contract["neg"]
+    path.fields(me)["_ghost_classarg"] = eval_spec(eng, contract["value"], env, path, fi)
+    path.fields(me)["_Class__verbose"] = SStr([Atom(z3.String(f"verbose_ctor_{me.oid}"), "opq", {"key": f"verbose{me.oid}"})])
+    return None
+
+
 def sb_LISTV(eng, path, x):
     return isinstance(x, (list, MapList, TermList))
 
@@ -1019,7 +1085,7 @@ def ret_opaque_init(eng, path, env, fi, contract):
     return None
 
 
-RETURNS = {"class_init": ret_class_init, "opaque_class": ret_opaque_class, "opaque_other": ret_opaque_other, "opaque_init": ret_opaque_init, "wrapped_init": ret_wrapped_init, "split_range": ret_split_range, "none": ret_none, "infer": ret_infer, "initpregex": ret_initpregex, "setcompiled": ret_setcompiled, "to_pregex": ret_to_pregex, "pregex": ret_pregex, "expr": ret_expr, "newpregex": ret_newpregex}
+RETURNS = {"class_wrapped": ret_class_wrapped, "class_op": ret_class_op, "class_ctor": ret_class_ctor, "class_init": ret_class_init, "opaque_class": ret_opaque_class, "opaque_other": ret_opaque_other, "opaque_init": ret_opaque_init, "wrapped_init": ret_wrapped_init, "split_range": ret_split_range, "none": ret_none, "infer": ret_infer, "initpregex": ret_initpregex, "setcompiled": ret_setcompiled, "to_pregex": ret_to_pregex, "pregex": ret_pregex, "expr": ret_expr, "newpregex": ret_newpregex}
 
 
 # ------------------------------------------------------------------------------------------------------
@@ -1066,7 +1132,13 @@ def concrete_construct(eng, ci, args, kwargs, fr, path):
     r = _concrete_cache[key]
     if "exception" in r:
         raise RaiseExc(r["exception"], Obj(r["exception"], kind="exception"))
-    return new_pregex(eng, path, ci.name, r["type"], cls=ci, text=r["pattern"], repeatable=r["repeatable"])
+    obj = new_pregex(eng, path, ci.name, r["type"], cls=ci, text=r["pattern"], repeatable=r["repeatable"])
+    if "class" in r:
+        f = path.fields(obj)
+        f["_Class__is_negated"] = r["class"]["negated"]
+        f["_Class__verbose"] = r["class"]["verbose"]
+        f["_ghost_classarg"] = SStr([Atom(z3.String(f"classarg_{ci.name}_{obj.oid}"), "opq", {"key": f"classarg{obj.oid}"})])
+    return obj
 
 
 def concrete_call(eng, fi, env, fr, path):
